@@ -74,7 +74,9 @@ def _rand_image(rng, big, counter=None):
     import scipy.ndimage as ndi
     h, w = _rand_shape(rng, big)
     kind = rng.choice(["zero", "one", "noise", "noise", "noise", "blob", "blob", "ring", "lines", "blocks", "frame",
-                       "checker", "dense"])
+                       "checker", "dense", "snake"])
+    if kind == "snake":            # long winding one-pixel line: needs far more iterations than max(shape)
+        h, w = int(rng.randint(7, big + 1)), int(rng.randint(7, big + 1))
     if counter is not None:
         counter("img:" + kind)
     if kind == "zero":
@@ -122,6 +124,28 @@ def _rand_image(rng, big, counter=None):
         a[0, :] = a[-1, :] = True
         a[:, 0] = a[:, -1] = True
         a |= rng.rand(h, w) < rng.choice([0.0, 0.1, 0.3])
+    elif kind == "snake":
+        a = np.zeros((h, w), bool)
+        if rng.rand() < 0.6:       # serpentine: full rows 0,2,4,.. joined alternately right / left
+            for r in range(0, h, 2):
+                a[r, :] = True
+                if r + 1 < h and r + 2 < h:
+                    a[r + 1, (w - 1) if (r // 2) % 2 == 0 else 0] = True
+        else:                      # rectangular spiral with one-pixel gaps
+            t, b, l, r_ = 0, h - 1, 0, w - 1
+            while t <= b and l <= r_:
+                a[t, l:r_ + 1] = True
+                a[t:b + 1, r_] = True
+                if b - t >= 2:
+                    a[b, l:r_ + 1] = True
+                    a[t + 2:b + 1, l] = True
+                    if t + 2 <= b and l + 1 <= r_ - 2:
+                        a[t + 2, l:l + 2] = True
+                t += 2; b -= 2; l += 2; r_ -= 2
+        if rng.rand() < 0.3:
+            a = a.T.copy(); h, w = w, h
+        if rng.rand() < 0.3:
+            a = a[::-1].copy()
     else:
         a = (np.add.outer(np.arange(h), np.arange(w)) % 2 == int(rng.randint(0, 2)))
         if rng.rand() < 0.5:
